@@ -9,7 +9,7 @@ Inductive iout :=
 | IAssert
 | IInternal
 | IDropped
-| IFitted (content : dict) (t_train : tout) (t_known : tout).
+| IFitted (content : dict) (okeys : list val) (t_train : tout) (t_known : tout).
 
 Record c18case := mkC18 {
   k_wf : bool;                   (* generated as a forest of the documented shape *)
@@ -17,6 +17,7 @@ Record c18case := mkC18 {
   k_col : list val;              (* training column: VStr / VNaN *)
   k_mf : Z * Z;                  (* min_freq as exact dyadic *)
   k_drop : bool;                 (* unknown_handling == 'drop' *)
+  k_vo : option (list val);      (* values_orders={feature: list} given at construction *)
   k_kin : list val;              (* second frame given to transform: every hierarchy value *)
   k_out : iout }.
 
@@ -29,6 +30,7 @@ Definition level_ok (d : dict) : bool :=
 
 Definition in_domain (c : c18case) : bool :=
   forallb level_ok (k_levels c) && forallb cell_ok (k_col c) && forallb is_str (k_kin c)
+  && match k_vo c with Some l => forallb is_str l && nodupb l | None => true end
   && match k_col c with [] => false | _ => true end.
 
 (* ---- agreement model / implementation ------------------------------------------------------ *)
@@ -49,12 +51,13 @@ Definition tout_eqb (a b : tout) : bool :=
   end.
 
 Definition agree (c : c18case) : bool :=
-  match fit (k_levels c) (k_col c) (k_mf c) (k_drop c), k_out c with
+  match fit_with_order (k_vo c) (k_levels c) (k_col c) (k_mf c) (k_drop c), k_out c with
   | AssertErr, IAssert => true
   | InternalErr, IInternal => true
   | Ok Dropped, IDropped => true
-  | Ok (Fitted g lpv), IFitted ct ttr tkn =>
+  | Ok (Fitted g lpv), IFitted ct ks ttr tkn =>
       vmap_eqb (content_map g) (content_map (mkGL [] ct))
+      && list_eqb val_eqb (keys g) ks            (* order of the modalities *)
       && tout_eqb (tout_of (transform g lpv (k_col c))) ttr
       && tout_eqb (tout_of (transform g lpv (k_kin c))) tkn
   | _, _ => false
@@ -78,6 +81,8 @@ Definition C18_b (c : c18case) : bool :=
       let mf := f_of_dyadic (fst (k_mf c)) (snd (k_mf c)) in
       let n := Z.of_nat (List.length (k_col c)) in
       if feature_dropped mf (k_col c) then true
+      else if match k_vo c with Some l => negb (forallb (fun v => mem v (c_known ch)) l) | None => false end
+      then true            (* values_orders names a value unknown to the hierarchy: refused at init *)
       else
         let filled := fillna (k_col c) in
         let lvs := c_levels ch in
@@ -85,7 +90,7 @@ Definition C18_b (c : c18case) : bool :=
         let L0 := fun x => if mem x unk then nan_s else x in
         let L := lead mf n lvs filled lvs L0 in
         match k_out c with
-        | IFitted ct ttr tkn =>
+        | IFitted ct ks ttr tkn =>
             let m := content_map (mkGL [] ct) in
             let ldr := fun v => match aget v m with Some l => l | None => VNaN end in
             (* unknown values only reach a fitted object under 'drop' *)
